@@ -1084,6 +1084,23 @@ class Engine:
 
     def num_binop(self, op, a, b, st, node):
         both_int = a.k in ('int', 'bool') and b.k in ('int', 'bool')
+        if a.k == 'int' and b.k == 'int':
+            az, bz = z3.simplify(a.z), z3.simplify(b.z)
+            if z3.is_int_value(az) and z3.is_int_value(bz):
+                x, y = az.as_long(), bz.as_long()
+                try:
+                    r = {ast.Add: lambda: x + y, ast.Sub: lambda: x - y,
+                         ast.Mult: lambda: x * y, ast.FloorDiv: lambda: x // y,
+                         ast.Mod: lambda: x % y,
+                         ast.Pow: lambda: x ** y if 0 <= y <= 64 else None,
+                         ast.LShift: lambda: x << y if 0 <= y <= 64 else None,
+                         ast.RShift: lambda: x >> y if 0 <= y <= 64 else None,
+                         ast.BitAnd: lambda: x & y, ast.BitOr: lambda: x | y,
+                         ast.BitXor: lambda: x ^ y}.get(type(op), lambda: None)()
+                except ZeroDivisionError:
+                    return [(st, Raised(self.make_exc('ZeroDivisionError', node=node)))]
+                if isinstance(r, int):
+                    return [(st, vint(r))]
         if isinstance(op, (ast.Add, ast.Sub, ast.Mult)):
             if both_int:
                 x, y = to_int(a), to_int(b)
@@ -1769,6 +1786,19 @@ class Engine:
             r = h(self, f, args, kwargs, st, node)
             if r is not None:
                 return r
+        if name in self.contract.opts.get('construct', ()):
+            m = self.find_method(name, '__init__')
+            if m is None and f.extra and f.extra.get('mod'):
+                m = Module.get(self.repo, f.extra['mod']).class_method(name, '__init__')
+            if m is not None:
+                oid = 'new!%s!%d' % (name, next(self.counter))
+                selfv = V('ref', cls=name, oid=oid)
+                st.objs[oid] = {}
+                bm = self.bound_method(m, selfv)
+                outs = []
+                for st1, r in self.call(bm, list(args), dict(kwargs), st, node):
+                    outs.append((st1, r if isinstance(r, Raised) else selfv))
+                return outs
         nt = self.namedtuple_fields(f)
         if nt is not None:
             mod_, fields = nt
